@@ -19,7 +19,7 @@
 (* Go harness executes against the real binary (every command from every   *)
 (* reachable state).                                                       *)
 (***************************************************************************)
-EXTENDS ErgoCmds, Json
+EXTENDS ErgoCmds, Json, Randomization
 
 CONSTANTS
   MaxTasks, MaxEpics,     \* live+pruned items ever created, per kind
@@ -32,6 +32,8 @@ CONSTANTS
   PlanDocs,               \* menu of plan documents
   ViewMode,               \* "graph" | "timed" | "log"
   Emit,                   \* "none" | "states" | "leaves"
+  SimSample,              \* 0: every command of the alphabet is a successor; k > 0 (simulation
+                          \* runs only): k commands drawn at random, which keeps walks cheap
   CraftMode, CraftN, CraftTasks, CraftEpics
                           \* initial stores.  "empty": the empty store; "random": CraftN stores
                           \* drawn at random from all crafted shapes over CraftTasks tasks and
@@ -224,7 +226,9 @@ Do(c) ==
     /\ hist' = Append(hist, c)
     /\ base' = base
 
-Next == Len(hist) < MaxDepth /\ \E c \in Alphabet(G) : Do(c)
+Moves(g) == LET A == Alphabet(g) IN
+              IF SimSample > 0 /\ Cardinality(A) > SimSample THEN RandomSubset(SimSample, A) ELSE A
+Next == Len(hist) < MaxDepth /\ \E c \in Moves(G) : Do(c)
 
 Spec == Init /\ [][Next]_vars
 
